@@ -403,3 +403,163 @@ def check_layout_pass(tier="quick", seed=0, repo="/repo"):
         res["open"][name] = info
     res["seconds"] = round(time.time() - t0, 2)
     return res
+
+
+# ---------------------------------------------------------------------------------------------------------
+# Parser.parse_file: "the parser always knows which file it is in" - the range checks of handle_host_id / handle_module_id (verified contracts)
+# exempt ids by self.current_file.name, so the C12 clause "an id outside its permitted range is refused" depends on parse_file's frame:
+#   (F1) every normal exit of parse_file - the 'already included' early return too - leaves self.current_file at its entry value;
+#   (F2) at the call self.parse_text(...) self.current_file has been set from the path of the file being read.
+# Decided by an abstract interpretation of the one function over the three-valued domain {entry, new, other} for self.current_file and the locals
+# that hold copies of it; paths: both arms of every if, try bodies completing normally, handlers, zero or one loop iteration.
+CURFILE_REPLAY = r'''
+import os, sys, pathlib, tempfile, shutil, logging
+sys.path.insert(0, os.path.join(sys.argv[1], "src"))
+logging.disable(logging.CRITICAL)
+import pyrtma
+from pyrtma.parser import Parser
+tmp = tempfile.mkdtemp(prefix="c12f_")
+core = pathlib.Path(pyrtma.__file__).parent / "core_defs" / "core_defs.yaml"
+try:
+    bad = []
+    for sect, nm, val in (("host_ids", "FAR_HOST", 40000), ("module_ids", "LOW_MODULE", 5), ("module_ids", "GAP_MODULE", 150)):
+        f = pathlib.Path(tmp) / f"user_{nm}.yaml"
+        f.write_text("imports:\n  - %s\n%s:\n  %s: %d\n" % (core, sect, nm, val))
+        try:
+            Parser().parse(f)
+            bad.append(f"{sect} {nm}: {val}")
+        except Exception as ex:
+            if type(ex).__name__ != "RTMASyntaxError":
+                print("C12-REPLAY-NOTE:", nm, type(ex).__name__)
+    if bad:
+        print("C12-REPLAY-VIOLATION: ids outside the permitted range are accepted in a file that re-imports core_defs.yaml (skipped as already read):", "; ".join(bad))
+finally:
+    shutil.rmtree(tmp, ignore_errors=True)
+'''
+
+
+def check_current_file(tier="quick", seed=0, repo="/repo"):
+    t0 = time.time()
+    res = dict(obligations=0, discharged=0, open={}, discharged_names=[], samples=[], by_backend={}, seconds=0.0, crashes=[], undecided=[], bounded=[],
+               assumptions=["parse_file's frame on self.current_file (restored on every normal exit, set to the file being read before parse_text) is decided by an abstract interpretation of the "
+                            "one function ({entry, new, other}), not by SMT; the verified range clauses of handle_host_id / handle_module_id rely on it"])
+    pre = "C12/parse_file"
+
+    def ok(n, goal):
+        res["obligations"] += 1; res["discharged"] += 1; res["discharged_names"].append(n)
+        res["by_backend"]["dataflow"] = res["by_backend"].get("dataflow", 0) + 1
+        res["samples"].append(dict(obligation=n, goal=goal, backend="dataflow"))
+
+    def bad(n, text):
+        res["obligations"] += 1
+        res["open"][n] = dict(kind="ensures", status="refuted", text=text, reason="dataflow", candidates=[])
+
+    def und(n, text):
+        res["obligations"] += 1
+        res["undecided"].append(f"{n}: {text}")
+    try:
+        tree = ast.parse(open(os.path.join(repo, "src", "pyrtma", "parser.py")).read())
+    except (OSError, SyntaxError) as ex:
+        res["crashes"].append(f"parser.py: {ex}")
+        return res
+    cls = next((n for n in tree.body if isinstance(n, ast.ClassDef) and n.name == "Parser"), None)
+    fd = next((n for n in (cls.body if cls else []) if isinstance(n, ast.FunctionDef) and n.name == "parse_file"), None)
+    if fd is None:
+        und(pre + "/current-file-restored", "Parser.parse_file not found")
+        return res
+    param = fd.args.args[1].arg if len(fd.args.args) > 1 else None
+    CUR = "self.current_file"
+    exits, reads, unknown = [], [], []
+
+    def val_of(e, st):
+        if isinstance(e, ast.Name):
+            return st["loc"].get(e.id, "other")
+        if ast.unparse(e) == CUR:
+            return st["cur"]
+        names = {x.id for x in ast.walk(e) if isinstance(x, ast.Name)}
+        if any(st["loc"].get(nm) == "new" for nm in names) or param in names:
+            return "new"
+        return "other"
+
+    def run(stmts, st):
+        """returns the list of states that fall through the block"""
+        states = [st]
+        for s in stmts:
+            nxt = []
+            for st in states:
+                st = dict(cur=st["cur"], loc=dict(st["loc"]))
+                if isinstance(s, ast.Return):
+                    exits.append((s.lineno, st["cur"]))
+                    continue
+                if isinstance(s, ast.Raise):
+                    continue
+                if isinstance(s, ast.Assign) and len(s.targets) == 1:
+                    tg = s.targets[0]
+                    if ast.unparse(tg) == CUR:
+                        st["cur"] = val_of(s.value, st)
+                    elif isinstance(tg, ast.Name):
+                        st["loc"][tg.id] = val_of(s.value, st)
+                    elif CUR in ast.unparse(tg):
+                        unknown.append(s.lineno)
+                    nxt.append(st)
+                elif isinstance(s, (ast.AugAssign, ast.AnnAssign)) and CUR in ast.unparse(s.target):
+                    unknown.append(s.lineno); nxt.append(st)
+                elif isinstance(s, ast.If):
+                    nxt += run(s.body, st) + run(s.orelse, st)
+                elif isinstance(s, (ast.For, ast.While)):
+                    nxt += [st] + run(s.body, st)
+                elif isinstance(s, ast.With):
+                    nxt += run(s.body, st)
+                elif isinstance(s, ast.Try):
+                    after = run(s.body, st)
+                    after = [a for b in after for a in run(s.orelse, b)] if s.orelse else after
+                    for h in s.handlers:
+                        after += run(h.body, st)
+                    if s.finalbody:
+                        after = [a for b in after for a in run(s.finalbody, b)]
+                    nxt += after
+                else:
+                    for c in ast.walk(s):
+                        if isinstance(c, ast.Call) and ast.unparse(c.func) == "self.parse_text":
+                            reads.append((c.lineno, st["cur"]))
+                        if isinstance(c, ast.Call) and ast.unparse(c.func) in ("setattr",) and "current_file" in ast.unparse(c):
+                            unknown.append(c.lineno)
+                    nxt.append(st)
+            states = nxt
+        return states
+
+    for st in run(fd.body, dict(cur="entry", loc={param: "new"} if param else {})):
+        exits.append((getattr(fd, "end_lineno", 0), st["cur"]))
+    if unknown:
+        und(pre + "/current-file-restored", f"self.current_file is written in a way the analysis does not follow (lines {unknown})")
+    else:
+        wrong = [(ln, v) for ln, v in exits if v != "entry"]
+        if not exits:
+            und(pre + "/current-file-restored", "no normal exit found")
+        elif wrong:
+            bad(pre + "/current-file-restored",
+                f"parse_file can return (line {wrong[0][0]}) with self.current_file still set to {'the file just handled' if wrong[0][1] == 'new' else 'another value'} instead of the importing "
+                "file: what the importing file declares afterwards is attributed to the wrong file, and the range checks of handle_host_id / handle_module_id exempt ids by that file's name")
+        else:
+            ok(pre + "/current-file-restored", f"all {len(exits)} normal exits of parse_file leave self.current_file at its entry value (the early 'already included' return too)")
+        if not reads:
+            und(pre + "/current-file-is-the-file-read", "no self.parse_text(...) call found")
+        elif all(v == "new" for _, v in reads):
+            ok(pre + "/current-file-is-the-file-read", "self.current_file is set from the path of the file being read before self.parse_text(text)")
+        else:
+            bad(pre + "/current-file-is-the-file-read", f"self.parse_text is called (line {reads[0][0]}) while self.current_file is not the file being read: its definitions are attributed to another file")
+    if res["open"]:
+        import subprocess
+        try:
+            p = subprocess.run(["/venv/bin/python", "-c", CURFILE_REPLAY, repo], capture_output=True, text=True, timeout=180)
+            lines = [l for l in p.stdout.splitlines() if l.startswith("C12-REPLAY-VIOLATION")]
+            if lines:
+                for info in res["open"].values():
+                    info["reproduced"] = True
+                    info["replay_how"] = "a user file that imports pyrtma's own core_defs.yaml (already read, so skipped) and then declares a host id 40000 / module ids 5 and 150"
+                    info["verifier_output"] = info["text"]
+                    info["text"] += "\nreplayed on the real parser: " + " | ".join(lines)
+        except Exception:
+            pass
+    res["seconds"] = round(time.time() - t0, 2)
+    return res
